@@ -465,6 +465,17 @@ class App:
 
             req_succeeded = False
 
+            # NOTE: Render the response that the error handler composed, so
+            #   that the error is reported with its body rather than with an
+            #   empty one. If that fails as well, the response is left bodiless.
+            try:
+                data = resp.render_body()
+            except Exception:
+                data = None
+
+            if data is not None:
+                body, length = [data], len(data)
+
         resp_status: str = code_to_http_status(resp.status)
         default_media_type: Optional[str] = self.resp_options.default_media_type
 
